@@ -98,7 +98,7 @@ impl EventSource for UnixStreamConnect {
         crate::scheduler::get_scheduler()
             .get_selector()
             .add_io_timer(&self.io_data, Duration::from_secs(2));
-        io_data.co.store(co);
+        io_data.store_co(co);
 
         // there is event, re-run the coroutine
         if io_data.io_flag.load(Ordering::Acquire) != 0 {
